@@ -7,7 +7,7 @@
    lookup_most_specific is proved for every trie (lookup_most_specific_any_trie_partial);
    what is not proved for mounts is stated there. *)
 From Coq Require Import String.
-From GoRes Require Import Mux.Spec Mux.ProofsMatch Mux.ProofsFlat Mux.ProofsTop Mux.ProofsReg Mux.ProofsGroup.
+From GoRes Require Import Mux.Spec Mux.ProofsMatch Mux.ProofsFlat Mux.ProofsTop Mux.ProofsReg Mux.ProofsGroup Mux.ProofsPG.
 Open Scope N_scope.
 
 (* ---- fetch_spec: a registration adds exactly its own pattern (as a skeleton: placeholder
@@ -39,6 +39,30 @@ Theorem lookup_most_specific_flat : forall path ops name,
     end
   end.
 Proof. exact lookup_most_specific_flat_pf. Qed.
+
+(* ---- params_exact and group_spec, one mux, any op list (listeners included):
+   [fent empty_node ops] = the accepted Handle calls (pattern, handler id, group template, Parallel);
+   the lookup returns the handler id of the most specific matching one, its params are exactly the
+   name's tokens at the pattern's $-placeholders, and the group is the substituted template
+   (the resource name when no group is set, "" for Parallel). ---- *)
+Theorem params_exact_group_spec_flat : forall path ops name,
+  is_valid_path path = true ->
+  validate_listeners (flat_state path ops) 0 = true ->
+  match spec_strip path name with
+  | None => get_handler (flat_state path ops) 0 name = LNone
+  | Some toks =>
+    match best_of e_skel (fent empty_node ops) toks with
+    | None => get_handler (flat_state path ops) 0 name = LNone
+    | Some e => exists ls gs,
+        get_handler (flat_state path ops) 0 name = LHit (e_hid e) ls (pvalues (ptoks (e_pat e)) toks) gs /\
+        group_spec_of (e_par e) (e_grp e) name (pvalues (ptoks (e_pat e)) toks) = Some gs
+    end
+  end.
+Proof. exact lookup_full_flat_pf. Qed.
+(* accepted Handle calls have pairwise different skeletons, so [e] above is THE registration of that pattern *)
+Theorem accepted_patterns_distinct : forall ops root e1 e2, In e1 (fent root ops) -> In e2 (fent root ops) ->
+  e_skel e1 = e_skel e2 -> e1 = e2.
+Proof. exact fent_unique. Qed.
 
 (* ---- lookup_total, one mux: GetHandler never panics, for every op list and every name ---- *)
 Theorem lookup_total_flat : forall path ops name,
@@ -83,6 +107,16 @@ Theorem lookup_total_v0_refuted : exists root pat hid grp name,
   exists g, get_handler_node [] (out_state (add root pat hid grp false)) name = LHit hid [] [(s2b "id", s2b "x")] g.
 Proof. exact lookup_total_v0_refuted_pf. Qed.
 
+(* before de9a2b8: AddListener("a.$w") after Handle("a.*") was accepted and made lookup report
+   params for a pattern without $-placeholder *)
+Theorem params_exact_v0_refuted : exists pat hid lpat l name,
+  let root1 := out_state (add empty_node pat hid [] false) in
+  is_ok (add empty_node pat hid [] false) = true /\
+  is_ok (add_listener root1 lpat l) = false /\
+  is_ok (add_listener_v0 root1 lpat l) = true /\
+  pvalues (ptoks pat) (tokens name) = [] /\
+  exists g, get_handler_node [] (out_state (add_listener_v0 root1 lpat l)) name = LHit hid [l] [(s2b "w", s2b "foo")] g.
+Proof. exact params_exact_v0_refuted_pf. Qed.
 (* before 4459494: "<path>." was taken for the mux path itself, so lookup_most_specific_flat failed
    (NewMux("svc"), Handle("*"): "svc." has the one-token remainder [""], which "*" matches) *)
 Theorem lookup_most_specific_v0_refuted : exists path ops name,
